@@ -5,14 +5,14 @@ HERE = os.path.dirname(os.path.dirname(os.path.abspath(__file__)))
 
 CLAIMED = {
  "C14": dict(cat="proof",
-    text="unify is symbolically executed from the real source over an ADT of kinds (user-type identifiers uninterpreted, no bound); its exits, proved exclusive and exhaustive, are folded into the outcome function U and idempotence, commutativity and both directions of associativity are discharged over U by z3. Order independence of the inferred table is only sampled (bounded, labelled).",
-    note="Trusted: pyvc engine and its Python encoding, z3/cvc5, structural record equality. Bounded only: order-independence of SymbolKindFinder on random programs; known finding D5 (non-unifiable kinds for one name) is excluded by fingerprint.",
+    text="unify is symbolically executed from the real source over an ADT of kinds (user-type identifiers uninterpreted, no bound); its exits, proved exclusive and exhaustive, are folded into the outcome function U and idempotence, commutativity and both directions of associativity are discharged over U by z3. SymbolKindTable.set is proved against a whole-table postcondition (flag raised iff the table changed; join commutes / is inflationary), and the driver SymbolKindFinder.__call__ is proved to return only a table that is a common fixed point of all statement steps (every statement processed successfully in a sweep in which the table did not change), for every work-list order and every outcome of every inference attempt; L-CHAOTIC (Lean) turns fixed point + join laws into order independence.",
+    note="Trusted: pyvc engine and its Python encoding, z3/cvc5, structural record equality. Assumed, not proved: one statement's transfer step is monotone in the table; termination of the driver; the z3 side and the Lean side are linked by reading. Work lists are abstracted to multisets, the table to a version counter. Bounded stand-in (labelled): programs and refinement chains inferred in permuted presentation orders; known finding D5 (non-unifiable kinds for one name) is excluded by fingerprint.",
     technique="contract-based deductive verification: ast->z3 VC generation from the real unify, lattice lemmas over its outcome function",
     ref="6/C14"),
 
  "C10": dict(cat="proof",
-    text="The four verifier passes and verify_code are symbolically executed from analysis.py against contracts: each pass adds a message iff its defect exists (witness ghosts one way, quantified loop invariants the other), the cycle detector is proved sound (error branch unreachable under any height function) and complete (ghost finishing order is a height function), and verify_code, using only those contracts, returns normally iff the method is well-formed and otherwise raises CodeGenerationError with >= 1 message; an escaping KeyError is proved unreachable. All inputs, no bound.",
-    note="Not proved: termination of the cycle detector's loop (cardinality argument) - bounded stand-in with a step guard only. Assumes unique statement ids per phase, structural reading of statement attributes, engine + solvers. Bounded stand-in (labelled): exhaustive small DAGs + random tail on the real verify_code and its consumers.",
+    text="The four verifier passes and verify_code are symbolically executed from analysis.py against contracts: each pass adds a message iff its defect exists (witness ghosts one way, quantified loop invariants the other), the cycle detector is proved sound (error branch unreachable under any height function) and complete (ghost finishing order is a height function), and verify_code, using only those contracts, returns normally iff the method is well-formed and otherwise raises CodeGenerationError with >= 1 message; an escaping KeyError is proved unreachable; the cycle detector is proved to terminate (lexicographic variant: ids not yet visited, stack length; finite-set cardinality facts = L-CARD, checked by Lean). All inputs, no bound.",
+    note="Assumes unique statement ids per phase, structural reading of statement attributes, engine + solvers. Bounded stand-in (labelled): exhaustive small DAGs + random tail on the real verify_code and its consumers.",
     technique="contract-based deductive verification: ast->z3 VC generation from the real verifier passes, loop invariants with ghost witnesses, modular callee contracts",
     ref="6/C10"),
  "C04": dict(cat="proof",
@@ -22,8 +22,8 @@ CLAIMED = {
     ref="6/C04"),
 
  "C06": dict(cat="proof",
-    text="Every map_* of ASTIdentityMapper, ASTPreSimplifyMapper, ASTSimplifyMapper (incl. nested flat_Block), ASTPostSimplifyMapper and simplify_ast is symbolically executed from dag_ast.py over a recursive tree ADT; each is proved to return a tree whose executed-leaf trace (continuation-passing encoding, arbitrary valuation of condition atoms) equals the input's and to raise no exception, with `self.rec` entering by the same contract (structural induction). Trees of any size and depth.",
-    note="Trusted: pymbolic IdentityMapper dispatch (A-ID), the structural induction rule, deque/reduce models, engine + solvers. Termination of map_Block's queue loop only bounded. Bounded stand-in (labelled): exhaustive trees up to 5-6 nodes + random tail on the real simplify_ast under all valuations.",
+    text="Every map_* of ASTIdentityMapper, ASTPreSimplifyMapper, ASTSimplifyMapper (incl. nested flat_Block), ASTPostSimplifyMapper and simplify_ast is symbolically executed from dag_ast.py over a recursive tree ADT; each is proved to return a tree whose executed-leaf trace (continuation-passing encoding, arbitrary valuation of condition atoms) equals the input's and to raise no exception, with `self.rec` entering by the same contract (structural induction); termination: variants for the loops of map_IfThenElse and map_Block, and every recursive call is proved to be on a strictly smaller node. Trees of any size and depth.",
+    note="Trusted: pymbolic IdentityMapper dispatch (A-ID), the structural induction rule, deque/reduce models, engine + solvers.  Bounded stand-in (labelled): exhaustive trees up to 5-6 nodes + random tail on the real simplify_ast under all valuations.",
     technique="contract-based deductive verification: ast->z3 VC generation over a tree ADT, CPS trace semantics, loop invariants on the deque algorithm",
     ref="6/C06"),
 
@@ -46,7 +46,7 @@ CLAIMED = {
     ref="6/C02"),
 
  "C20": dict(cat="proof",
-    text="wrap_line_base is symbolically executed over an abstract token list of any length (lines tracked as length + token range, every `+=` carrying the obligation that a whole next token is appended): each token is placed exactly once and in order, and each emitted line with >= 2 tokens fits the width after padding; pad_python / pad_fortran are proved with z3 strings to satisfy the pad contract the wrapper assumes. Relative to the lexer contract A-LEX.",
+    text="wrap_line_base is symbolically executed over an abstract token list of any length (lines tracked as length + token range, every `+=` carrying the obligation that a whole next token is appended): each token is placed exactly once and in order, and each emitted line with >= 2 tokens fits the width after padding; pad_python / pad_fortran are proved with z3 strings to satisfy the pad contract the wrapper assumes. Relative to the lexer contract A-LEX; a second contract variant covers the call without a lexer and pins the default to functools.partial(shlex.split, posix=False), the lexer A-LEX is stated for.",
     note="A-LEX (a quoted string lies within one token) is false for shlex in known cases: findings D19, D27, D28 are reported by the bounded stand-in (exhaustive small token sequences x widths x levels on both real wrap_line functions, ast.parse comparison) and listed in known_findings.json by fingerprint.",
     technique="contract-based deductive verification: ast->z3 VC generation with linear integer length reasoning and ghost token ranges; z3 strings for the pad functions",
     ref="6/C20"),
@@ -75,7 +75,7 @@ CLAIMED = {
     ref="6/C16"),
 
  "C09": dict(cat="other",
-    text="MIXED. Proved deductively: every KindInferenceMapper.map_* returns a SymbolKind, never None, on every normal exit (induction hypothesis on rec; unify / registry by their contracts). NOT proved: that every assigned variable receives a table entry (SymbolKindFinder.__call__ is outside the contracts; D23 shows the clause is false for subscript-only assignments) and value-vs-kind agreement: those are decided only by the bounded stand-in (built-ins on a value catalogue; random builder programs executed on the real interpreter with a kind monitor).",
+    text="MIXED. Proved deductively: every KindInferenceMapper.map_* returns a SymbolKind, never None, on every normal exit (induction hypothesis on rec; unify / registry by their contracts). Also proved: the table's set (flag iff changed) and the driver SymbolKindFinder.__call__ (returns only a common fixed point of all statement steps; contracts shared with C14); every built-in's get_result_kinds returns upper bounds of IMPL_f(argument kinds), the kind of the value its NumPy implementation returns (IMPL_f: an assumed contract on builtins_python.py + NumPy dtype rules, exercised by the bounded catalogue). NOT proved: that every assigned variable receives a table entry (D23 shows the clause is false for subscript-only assignments) and value-vs-kind agreement of programs: decided only by the bounded stand-in (random builder programs and refinement chains executed on the real interpreter with a kind monitor).",
     note="Category other: the property relates static kinds to numpy run-time values (floating point, numpy result types), which no contract on the inference functions can state. Known disagreements D5, D12, D13, D23, D37, D38, D39 are listed by fingerprint.",
     technique="contract-based deductive verification of the inference mapper's methods + bounded run-time kind monitor",
     ref="6/C09"),
@@ -86,13 +86,13 @@ CLAIMED = {
     ref="6/C19"),
 
  "C17": dict(cat="proof",
-    text="RELATIVE to the soundness of pymbolic's UnidirectionalUnifier (A-UNIF). _ExtendedUnifier.map_call is proved to return only records that extend an input record and unify the function symbols and every aligned positional/keyword argument pair (hence the calls), and to return no record for class, arity or keyword-name mismatches; map_modulo_identity is proved sound (the target is replaced by op(identity, target), of equal value); map_sum / map_product are proved to pass the inherited mapper of the same operator and its identity 0 / 1.",
-    note="Records and `unifies` are abstract (uninterpreted); match() itself (parsing, pre_match record, records[0], ValueError) and A-UNIF are covered only by the bounded stand-in (substitute back and evaluate at random rational points under random function tables; 3.4k matches checked in the quick tier).",
+    text="RELATIVE to the soundness of pymbolic's UnidirectionalUnifier (A-UNIF). _ExtendedUnifier.map_call is proved to return only records that extend an input record and unify the function symbols and every aligned positional/keyword argument pair (hence the calls), and to return no record for class, arity or keyword-name mismatches; map_modulo_identity is proved sound (the target is replaced by op(identity, target), of equal value); map_sum / map_product are proved to pass the inherited mapper of the same operator and its identity 0 / 1; match() is proved to run the unifier with exactly the declared candidates on the flattened (parsed) arguments from nothing or from one record holding exactly the pre_match equations, to return the equations of a record the unifier returned, and to raise ValueError when there is none.",
+    note="Records and `unifies` are abstract (uninterpreted); A-UNIF, A-FLATTEN and parse() are covered only by the bounded stand-in (substitute back and evaluate at random rational points under random function tables; 3.4k matches checked in the quick tier).",
     technique="contract-based deductive verification relative to an assumed contract on the external unifier; loop invariant over argument pairs",
     ref="6/C17"),
  "C18": dict(cat="proof",
-    text="RELATIVE to the constant finder's postcondition and A-ID. _ExpressionCollapsingMapper.rec and map_commut_assoc are proved, over an abstract value semantics with + / * as one commutative-associative operator (AC identities decided in (Z,+)), to return an expression that has the value of the input once hoisted variables denote their assigned expressions; every recorded assignment is proved to be a constant expression assigned exactly once to a variable freshly obtained from new_var_func; combine_func never receives an empty operand list; map_sum / map_product delegate with their own constructor.",
-    note="Assumed: _ConstantFindingMapper marks only variable-free subexpressions constant (bounded monitor); inherited IdentityMapper methods preserve value. collapse_constants' three-line driver is in the bounded stand-in (6k expressions x free-variable subsets).",
+    text="RELATIVE to A-COMBINE / A-ID (pymbolic's CombineMapper / IdentityMapper traversal). The constant finder's six own methods are proved against a method contract (stack discipline, sound table, result => no free variable) and __call__ to return a sound table; a class-shape obligation pins the set of overridden methods; collapse_constants and the mapper's __call__ are proved to hand every recorded assignment to assign_func exactly once. _ExpressionCollapsingMapper.rec and map_commut_assoc are proved, over an abstract value semantics with + / * as one commutative-associative operator (AC identities decided in (Z,+)), to return an expression that has the value of the input once hoisted variables denote their assigned expressions; every recorded assignment is proved to be a constant expression assigned exactly once to a variable freshly obtained from new_var_func; combine_func never receives an empty operand list; map_sum / map_product delegate with their own constructor.",
+    note="Assumed: inherited CombineMapper / IdentityMapper methods traverse every direct subexpression and preserve value; the induction from the own methods to the inherited ones is argued. Bounded stand-in (labelled): 6k expressions x free-variable subsets on the real collapse_constants.",
     technique="contract-based deductive verification with an abstract AC value semantics and ghost accumulators",
     ref="6/C18"),
 
@@ -103,9 +103,9 @@ CLAIMED = {
     ref="6/C15"),
 
  "C07": dict(cat="other",
-    text="MIXED. Proved deductively (structural clauses): get_names_in_ast_structure returns every guard, loop-variable and loop-bound name of the phase tree (recursive, over the tree ADT); get_var_name_generator seeds the fresh-name generator with every name read or written by a statement and every structural name; apply_statement_rewriter hands the rewriter generators seeded from all statements of the tree and from the tree itself (so, with A-UNG, no introduced name captures a user name); isolate_call delegates to the inherited mapper with the arity the overridden mapper needs and builds its statement with the guard, base|sub dependencies and fresh names. NOT proved: the other rewriters' bodies and the semantic clause (same values, same external calls), which only the bounded stand-in decides (independent executor before/after each pass and in the Fortran pass order).",
-    note="Category other: semantic preservation of program transformations over all programs is not within reach of the per-function contracts built here. Known finding D20 (calls hoisted out of untaken conditional-expression branches) listed by fingerprint.",
-    technique="contract-based deductive verification of the freshness / guard / call-shape clauses + bounded semantic stand-in",
+    text="MIXED. Proved deductively (structural clauses): get_names_in_ast_structure returns every guard, loop-variable and loop-bound name of the phase tree (recursive, over the tree ADT); get_var_name_generator seeds the fresh-name generator with every name read or written by a statement and every structural name; apply_statement_rewriter hands the rewriter generators seeded from all statements of the tree and from the tree itself (so, with A-UNG, no introduced name captures a user name); isolate_call delegates to the inherited mapper with the arity the overridden mapper needs and builds its statement with the guard, base|sub dependencies and fresh names. Proved semantically (rewriter contract RW, for every state: the introduced statements executed in list order leave every known name unchanged, make the returned expression evaluate to the value of the rewritten one where the guard holds, and do nothing where it does not): ExprIfThenElseExpander.map_if and ExprFunctionArgumentIsolator.isolate_arg, given RW for self.rec; flat_LogicalAnd; provenance contracts (fresh names / ids are exactly the generators' results, guard out of the mapper's reach and restored, dependencies on everything introduced, rewritten statement last) for SelfDependencyEliminator.map_statement and the three statement-level drivers. NOT proved: the composition from expressions to whole statements and phases, isolate_call's value clause, calls as events - the bounded stand-in decides those (independent executor before/after each pass and in the Fortran pass order).",
+    note="Category other: semantic preservation of program transformations over all programs is not within reach of the per-function contracts built here. Known findings D20 (calls hoisted out of untaken conditional-expression branches), D41, D42 (consequences of flatten() in Assign.__init__) listed by fingerprint.",
+    technique="contract-based deductive verification: freshness / guard / call-shape clauses, a state-based semantic contract (arrays as states, frame axiom) for two expression rewriters + bounded semantic stand-in",
     ref="6/C07"),
 }
 
